@@ -206,7 +206,7 @@ Proof. exact auto_is_explicit. Qed.
 (* the STRONGER reading -- "auto" = the explicit public call on the FINISHED setup.  For the idler and the waist positions it is the
    statement above (they are computed last, on the finished crystal).  For the crystal angle it needs that the external angle of the
    finished signal does not depend on the crystal angle -- proved for collinear signals of the composed model
-   (C16_auto_theta_final_composed); for a non-collinear signal it is FALSE on the implementation: known finding F16. *)
+   (C16_auto_theta_final_composed); for a non-collinear signal it is FALSE on the implementation: known finding F22. *)
 Theorem C16_auto_theta_is_final_optimum : forall num (o : NumOps num) U K minpos rj (c : spdc_cfg num) s nf,
   try_as_spdc_steps o U K minpos rj c = Ok (s, nf) -> cc_theta_deg (c_crystal c) = Auto ->
   (forall th, o_snell_ext K (s_signal s) (set_crystal_theta (cfg_cs0 o c) th) = o_snell_ext K (s_signal s) (cfg_cs0 o c)) ->
